@@ -224,6 +224,17 @@ impl Fixture {
             Arc::new(|w, fx| e(w.db.set_transaction_status(TxId::from_bytes(fx.u.note("a1").txid), TransactionStatus::Mined(BlockHeight::from_u32(FIRST)))).map(|_| String::new())),
         );
         add("tx_trust@mid", 1, Arc::new(|w, fx| e(w.db.set_tx_trust(TxId::from_bytes(fx.u.note("a1").txid), true)).map(|_| String::new())));
+        // --- pool-migration store writes (c02/migops.rs): each has its own pre-state = mid + setup
+        for mo in super::migops::migration_ops() {
+            let mut w = db::new_wallet(&u, 4, false);
+            db::restore(w.db.conn_mut(), &pres[1]);
+            w.refresh_accounts();
+            (mo.setup)(&mut w, &u);
+            pre_names.push(Box::leak(format!("mid+{}", mo.name).into_boxed_str()));
+            pres.push(db::snapshot(w.db.conn()));
+            let f = mo.f.clone();
+            ops.push(OpDef { name: mo.name.clone(), pre: pres.len() - 1, f: Arc::new(move |w, fx| f(w, &fx.u)) });
+        }
         Fixture { u, pre_names, pres, ops }
     }
 }
